@@ -1,6 +1,7 @@
 import GeomV.C10.GeomTransform
 import GeomV.C10.Transformer
 import GeomV.C10.Mem
+import GeomV.C10.MemDecode
 import GeomV.C10.Ctors
 /-!
 # C10 model = `GeomTransform` (the eight `Transform` methods of /repo/transform.go, functional) +
